@@ -1867,8 +1867,156 @@ def check_c18(rep, tier, seed, wd, replay):
         if d:
             nd += 1
             rep.add_violation("correspondence", "case %s: %s" % (c["id"], d), rp, failing_input=bool(probs))
-    cov = summarize(rep, len(cases), len(set(c["bag"] for c in cases)),
-                    "generated ROS 1 bags (1-5 connections incl. ids 0 and 65535, repeated connection records, shared and distinct types/md5, empty and 300-byte messages, times up to 2^32-1 s, chunks none/lz4/bz2 or unchunked records) converted under random MCAP writer options; corruptions of valid bags (bad/short magic, truncation, hostile header and field lengths, byte noise) and hand-made hostile records, each conversion in an isolated child; output bytes compared with the bag+writer model; oracle: the converted file decodes (independent decoder) to one message per bag message in order with the right times/bytes/channel/schema; invalid input gives an error, never a crash/exit",
+    # ---------------- ROS 2 db3
+    import sqlite3
+    ndb = 40 if tier == "quick" else 600
+    dbcases = []
+    SEPL = "=" * 80
+    MSGS = {"std_msgs/msg/Header": "builtin_interfaces/Time stamp\nstring frame_id", "builtin_interfaces/msg/Time": "int32 sec\nuint32 nanosec\n",
+            "geometry_msgs/msg/Point": "float64 x\nfloat64 y\nfloat64 z", "geometry_msgs/msg/PointStamped": "# a comment\nstd_msgs/Header header\nPoint point\n",
+            "pkg/msg/Plain": "int32 a\nstring<=10 name\nfloat32[3] arr", "pkg/msg/Nested": "Plain p\ngeometry_msgs/PointStamped[] pts\nPlain q"}
+    base_dir = os.path.join(wd, "ament")
+    pk = {}
+    for t, text in MSGS.items():
+        pkg, _, name = t.split("/")
+        os.makedirs(os.path.join(base_dir, "share", pkg, "msg"), exist_ok=True)
+        open(os.path.join(base_dir, "share", pkg, "msg", name + ".msg"), "w").write(text)
+        pk.setdefault(pkg, []).append("msg/%s.msg" % name)
+    os.makedirs(os.path.join(base_dir, "share", "ament_index", "resource_index", "rosidl_interfaces"), exist_ok=True)
+    for pkg, ls in pk.items():
+        open(os.path.join(base_dir, "share", "ament_index", "resource_index", "rosidl_interfaces", pkg), "w").write("\n".join(ls) + "\n")
+    PRIM = {"bool", "int8", "uint8", "int16", "uint16", "int32", "uint32", "int64", "uint64", "float32", "float64", "string", "time", "duration", "char", "byte"}
+
+    def assemble(t):
+        """independent implementation of the documented schema concatenation"""
+        out = ""
+        queue = [t]
+        seen = {t}
+        first = True
+        while queue:
+            cur = queue.pop(0)
+            text = MSGS[cur]
+            if not first:
+                if not out.endswith("\n"):
+                    out += "\n"
+                out += SEPL + "\n" + "MSG: %s\n" % cur.replace("/msg/", "/", 1)
+            out += text
+            first = False
+            for line in text.split("\n"):
+                line = line.strip()
+                if not line or line.startswith("#"):
+                    continue
+                ft = line.split(" ")[0]
+                for ch in "[<":
+                    if ch in ft[1:]:
+                        ft = ft[:ft.index(ch, 1)]
+                if ft in PRIM:
+                    continue
+                parts = [x for x in ft.split("/") if x]
+                q = "%s/msg/%s" % (cur.split("/")[0], ft) if len(parts) == 1 else "%s/msg/%s" % (parts[0], parts[1])
+                if q not in seen:
+                    seen.add(q); queue.append(q)
+        return out.encode()
+    for i in range(ndb):
+        pth = os.path.join(wd, "c18db%d.db3" % i)
+        con = sqlite3.connect(pth)
+        qos = r.random() < 0.6
+        con.execute("create table topics(id integer primary key, name text, type text, serialization_format text%s)" % (", offered_qos_profiles text" if qos else ""))
+        con.execute("create table messages(id integer primary key, topic_id integer, timestamp integer, data blob)")
+        topics = []
+        ids = r.sample([1, 2, 3, 7, 65535, 100], r.randint(1, 4))
+        for tid in ids:
+            typ = r.choice(list(MSGS) + ["pkg/srv/NotAMessage", "action_msgs/srv/CancelGoal"])
+            row = (tid, "/topic%d" % tid, typ, "cdr") + ((r.choice([None, "", "- history: 3\n  depth: 0"]),) if qos else ())
+            con.execute("insert into topics values (%s)" % ",".join("?" * len(row)), row)
+            topics.append(row)
+        msgs = []
+        for k in range(r.randint(0, 12)):
+            tid = r.choice(ids)
+            ts = r.choice([0, 5, 5, 1600000000000000000, 2**63 - 1, r.randrange(2**40)])
+            data = bytes(r.randrange(256) for _ in range(r.randint(0, 20)))
+            con.execute("insert into messages(topic_id, timestamp, data) values (?,?,?)", (tid, ts, data))
+            msgs.append((tid, ts, data))
+        con.commit(); con.close()
+        o = g0.wopts(skipmagic=False)
+        if o["comp"] == "xor":
+            o["comp"], o["custom"] = "", False
+        dbcases.append({"id": "c18d%d" % i, "o": o, "db": pth, "topics": topics, "msgs": msgs, "qos": qos})
+    impl = os.path.join(cm.BUILD, "impl")
+    lib = cm.lib_id()
+    go_raw, dculp = cm.run_isolated(impl, "db3", [(c["id"], [gw.wopts_line(c["o"]), "db " + c["db"], "dir " + base_dir]) for c in dbcases], wd, "c18dgo", timeout=90, mem_bytes=12 << 30)
+    mscripts = []
+    for c in dbcases:
+        v = go_raw.get(c["id"], [])
+        g = cw.parse_write_obs(v)
+        ls = [gw.wopts_line(c["o"]), "lib " + cm.hx(lib)]
+        for comp, plain, payload, end in g["chunks"]:
+            if comp != b"" and end == "eof":
+                ls.append("comp %s %s" % (cm.hx(plain), cm.hx(payload)))
+        ls += [l for l in v if l.split(" ")[0] in ("topicrow", "msgrow", "schema", "schemas")]
+        mscripts.append((c["id"], ls))
+    mod_raw, mcr = cm.run_sharded(os.path.join(cm.BUILD, "model"), "db3", mscripts, wd, "c18dmodel")
+    st["db3"] = 0
+    st["db3_messages"] = 0
+    for c in dbcases:
+        rp = ["case %s" % c["id"], "# topics %r" % (c["topics"],), "# messages %r" % (c["msgs"][:20],), gw.wopts_line(c["o"]), "end"]
+        if c["id"] in dculp:
+            rep.add_violation("oracle", "case %s: DB3ToMCAP terminated the process: %s" % (c["id"], dculp[c["id"]]), rp)
+            continue
+        v = go_raw.get(c["id"], [])
+        g = cw.parse_write_obs(v)
+        gres = next((l[4:] for l in v if l.startswith("db3 ")), None)
+        mv = mod_raw.get(c["id"], [])
+        m = cw.parse_write_obs(mv)
+        mres = next((l[4:] for l in mv if l.startswith("db3 ")), None)
+        probs = []
+        st["db3"] += 1
+        if gres is None or gres.startswith("panic"):
+            probs.append("DB3ToMCAP panicked: %s" % gres)
+        else:
+            mtopics = [t for t in c["topics"] if "/msg/" in t[2]]
+            # schema assembly vs the independent implementation
+            for l in v:
+                if l.startswith("schema "):
+                    f = l.split(" ")
+                    if cm.unhx(f[2]) != assemble(cm.unhx(f[1]).decode()):
+                        probs.append("assembled schema for %s differs from the concatenation of its definition files" % cm.unhx(f[1]).decode())
+            if gres != "ok":
+                probs.append("conversion of a valid database failed: %s" % gres)
+            else:
+                try:
+                    d = mcapspec.decode(b"".join(g["writes"]), cw.plain_lookup(g))
+                    mt_ids = set(t[0] for t in mtopics)
+                    rows = sorted([mm for mm in c["msgs"] if mm[0] in mt_ids], key=lambda mm: mm[1])   # stable: insertion order within equal timestamps
+                    seqs = {}
+                    want = []
+                    for tid, ts, data in rows:
+                        want.append((tid, seqs.get(tid, 0), ts, ts, data)); seqs[tid] = seqs.get(tid, 0) + 1
+                    got = [(mm["channel_id"], mm["sequence"], mm["log_time"], mm["publish_time"], mm["data"]) for mm in d["messages"]]
+                    st["db3_messages"] += len(want)
+                    if sorted(got) != sorted(want) or [x[2] for x in got] != sorted(x[2] for x in got):
+                        probs.append("converted messages differ from the stored messages of message-typed topics (%d vs %d) or are not in timestamp order" % (len(got), len(want)))
+                    for t in mtopics:
+                        ch = d["channels"].get(t[0])
+                        if ch is None or ch["topic"] != t[1].encode() or ch["message_encoding"] != t[3].encode():
+                            probs.append("topic %d has no faithful channel" % t[0]); continue
+                        wantmeta = [(b"offered_qos_profiles", t[4].encode())] if c["qos"] and t[4] is not None else []
+                        if sorted(ch["metadata"]) != wantmeta:
+                            probs.append("channel %d does not preserve the QoS metadata" % t[0])
+                        sc = d["schemas"].get(ch["schema_id"])
+                        if sc is None or sc["name"] != t[2].encode() or sc["encoding"] != b"ros2msg" or sc["data"] != assemble(t[2]):
+                            probs.append("schema of topic %d is not the assembled definition of %s" % (t[0], t[2]))
+                    if d["header"]["profile"] != b"ros2":
+                        probs.append("profile is not ros2")
+                except mcapspec.SpecError as e:
+                    probs.append("converted file is not a valid MCAP: %s" % e)
+        for p in probs[:3]:
+            rep.add_violation("oracle", "case %s: %s" % (c["id"], p), rp)
+        if (gres, g["writes"]) != (mres, m["writes"]):
+            nd += 1
+            rep.add_violation("correspondence", "case %s: db3 conversion: impl %s (%d bytes) model %s (%d bytes)" % (c["id"], gres, len(b"".join(g["writes"])), mres, len(b"".join(m["writes"]))), rp, failing_input=bool(probs))
+    cov = summarize(rep, len(cases) + len(dbcases), len(set(c["bag"] for c in cases)) + len(dbcases),
+                    "generated SQLite databases (with/without the QoS column, equal timestamps, topics without messages, non-message topic types with messages) converted with DB3ToMCAP against a generated ament index; rows as the engine returns them and the assembled schemas are logged and fed to the db3+writer model; schema assembly compared with an independent implementation. generated ROS 1 bags (1-5 connections incl. ids 0 and 65535, repeated connection records, shared and distinct types/md5, empty and 300-byte messages, times up to 2^32-1 s, chunks none/lz4/bz2 or unchunked records) converted under random MCAP writer options; corruptions of valid bags (bad/short magic, truncation, hostile header and field lengths, byte noise) and hand-made hostile records, each conversion in an isolated child; output bytes compared with the bag+writer model; oracle: the converted file decodes (independent decoder) to one message per bag message in order with the right times/bytes/channel/schema; invalid input gives an error, never a crash/exit",
                     [[c["bag"][:200].hex()] for c in cases[:2]], dict(st, disagreements=nd, corrupted=ncor))
     return cov, ["lz4/bz2 bag chunk decoders are oracles", "db3: SQLite engine and file system are inputs of the model (partial)"]
 
